@@ -8,7 +8,8 @@ Inductive tcase :=
 | CFrom (x eq er : Z)
 | CSub (q1 r1 q2 r2 e : Z)
 | CCmp (q1 r1 q2 r2 : Z) (res : list bool)   (* ==, !=, <, >, <=, >= *)
-| CInf (eq er : Z).
+| CInf (eq er : Z)
+| CHeap (times : list (Z * Z)) (order : list nat).   (* times pushed to the C heap, order in which they came out *)
 
 Definition time_eqb_bits (t : time) (eq er : Z) : bool :=
   feqb_bits (tq t) (of_bits eq) && feqb_bits (tr t) (of_bits er).
@@ -31,4 +32,17 @@ Definition check_tcase (c : tcase) : bool :=
       let b := mkTime (of_bits q2) (of_bits r2) in
       list_beq [time_eq a b; time_ne a b; time_lt a b; time_gt a b; time_le a b; time_ge a b] res
   | CInf eq er => time_eqb_bits time_inf eq er
+  | CHeap times order =>
+      (* the C heap hands the events out in an order that the quotient-then-remainder comparison accepts,
+         and every event comes out exactly once *)
+      let t (i : nat) := match nth_error times i with
+                         | Some (q, r) => mkTime (of_bits q) (of_bits r)
+                         | None => time_inf end in
+      (fix sorted (l : list nat) : bool :=
+         match l with
+         | i :: ((j :: _) as rest) => negb (time_lt (t j) (t i)) && sorted rest
+         | _ => true
+         end) order
+      && Nat.eqb (length order) (length times)
+      && forallb (fun i => existsb (Nat.eqb i) order) (seq 0 (length times))
   end.
